@@ -20,7 +20,7 @@ n = len(r)
 txt = open(f"{V}/tools/design_asbuilt.md").read()
 txt += f"""### 10.8 Seeded changes: which check catches which change
 
-{n} breaking changes were produced in five rounds by fresh sub-agents that saw only the text of one
+{n} breaking changes were produced in six rounds by fresh sub-agents that saw only the text of one
 property and a scratch worktree under /tmp (round 1: two per property, ids `Cnn-1`, `Cnn-2`;
 round 2: one more per property, `Cnn-3`, asked to look away from the most obvious place; round 3:
 `Cnn-4`, given one-line descriptions of the earlier changes to that property and asked for something
@@ -29,7 +29,8 @@ four earlier changes and asked for a change that needs a rare input - a particul
 second module, a process setting, a file already at the output path - to show; round 5: `Cnn-6`,
 additionally pointed at kinds of slip not yet tried: state kept between calls, dependence on the
 process environment, iteration order or identity, byte-length boundaries, broader/narrower `except`,
-early exits from loops, truthiness of optional values). Each
+early exits from loops, truthiness of optional values; round 6: `Cnn-7`, asked for an effect that
+shows only on an unusual but legitimate input or situation). Each
 was confirmed by me (applies to HEAD, suite still 147 passed, its own `demo.py` exits 0 without
 and 1 with the change — `seeded/<id>/confirm.txt`) and is kept as
 `seeded/<id>/{{patch.diff, demo.py, notes.md, meta.json}}`. `tools/seed_matrix.py` applies each to
@@ -146,7 +147,33 @@ What the seeded changes taught, and what was added to the checks because of them
   C16-6 (`'.'.join(err['loc'])` with integer locations) -> the exit status for errors located in
   list elements, numbered schema slots and nested key entries; C20-6 (`dt_now` as default argument)
   -> uploads for a later year judged with the clock set to that year, expectations by construction.
-* Everything else in the five rounds was caught by the check as it stood.
+* Round 6: on the first sweep the property's own check reported 6 of the 20 with a failing input
+  (C01, C08, C10, C14, C15, C20), one through a harness stop (C11: the tool's data classes refused
+  a response my harness constructs; now a reported violation with the input) and 13 not at all - 7
+  of those were reported with a failing input by a neighbouring property's check. All twenty are
+  now reported by their own property's check with a failing input. What was added:
+  C02-7 (RSA key taken from the token's raw exponent octets) -> tokens that report the public
+  exponent with leading zero octets (emulator option; also in C01/C15 layouts); C03-7 (= C09-3,
+  revoked-key exemption over the whole SKR) -> three-bundle ceremonies with a sign / sign+revoke /
+  gone schema in C03; C04-7 (= C05-5 on the KSR side) -> C04's scenarios can now enter through the
+  KSR document (`via_xml`), run under other process time zones with offset-less timestamps;
+  C05-7 (bundle validity cached by the first eight characters of the bundle id) -> bundle ids in
+  four styles (short, named by quarter, UUID, long common prefix); C06-7 (acceptable domains
+  lower-cased at load) -> mixed-case domains with an expectation taken from the list as configured,
+  not as read back from the policy object; C07-7 (`strip()` on the decoded key octets) -> RSA keys
+  whose modulus ends in 0x09 / 0x0b / 0x0d; C09-7 (configured previous SKR wins over
+  `--previous_skr`) -> ceremonies in which configuration and command line name different previous
+  SKRs with different verdicts; C12-7 (`str_strip_whitespace` on the data classes) -> identifiers
+  with leading/trailing blanks compared character for character with the generator's strings (and
+  tabs, which surfaced the attribute-value normalisation finding); C13-7 (`assert` instead of
+  `raise`) -> the loader run in interpreters started with -O, -OO and PYTHONOPTIMIZE=1 on valid and
+  invalid KSRs; C16-7 (`regex_engine="python-re"`: `$` matches before a final line break) ->
+  pattern-constrained options with a line break before/after an otherwise valid value; C17-7
+  (= C11-5) -> the ceremony of C17 writes over nothing / a shorter / a much longer file; C18-7
+  (= C14-5) -> public RSA objects given by raw attributes with exponents of 1, 3, 4, 254, 255, 256,
+  257 octets; C19-7 (= C06-5) -> inventory of a configured KSK whose key-tag sum carries after the
+  fold, with its true tag and with tag + 1.
+* Everything else in the six rounds was caught by the check as it stood.
 
 ### 10.9 Running it
 
